@@ -417,6 +417,10 @@ func checkC18(prop, tier string) int {
 	var samples []any
 	for i, r := range results {
 		if r.Crashed || r.Err != "" {
+			if v := crashViolation(pool, "C18", jobs[i], r); v != nil {
+				viols = append(viols, *v)
+				continue
+			}
 			infra++
 			fmt.Fprintf(os.Stderr, "INFRA: c18 job %d: %s %s\n", i, r.Err, tail(r.Stderr, 600))
 			continue
